@@ -366,6 +366,46 @@ func runC17When(c *Ctx) {
 				n++
 				if w := inWalk[fn]; w != nil {
 					bad = append(bad, fmt.Sprintf("%s: %s evaluates the groups (%s) while %s is still walking: members of the enclosing objects that are declared later have not been registered yet", p.Pos(instrPos(ins)), fnName(fn), cal.Name(), fnName(w)))
+					continue
+				}
+				// ... and not between two walks either (a flush at element boundaries of a top-level slice): after
+				// the evaluation no walker call may still be reachable, in this function or — when this function
+				// only wraps the evaluation — behind its own call sites
+				var walkAfter func(site ssa.Instruction, host *ssa.Function, depth int) string
+				walkAfter = func(site ssa.Instruction, host *ssa.Function, depth int) string {
+					idx := indexIn(site)
+					for _, later := range instrsReachableAfter(site.Block(), idx) {
+						if lc, ok := later.(ssa.CallInstruction); ok {
+							if g := staticCallee(lc.Common()); g != nil {
+								for _, w := range findWalkers(p) {
+									if g == w.Fn || reachableFrom(g)[w.Fn] {
+										return fmt.Sprintf("%s: after the group evaluation at %s, %s still walks (%s): the clauses of groups are written between the clauses of later elements, and a group whose members lie on both sides is judged half filled", p.Pos(instrPos(later)), p.Pos(instrPos(site)), fnName(host), g.Name())
+									}
+								}
+							}
+						}
+					}
+					if depth >= 2 {
+						return ""
+					}
+					for _, caller := range p.Funcs {
+						for _, cb := range caller.Blocks {
+							for _, ci := range cb.Instrs {
+								if cc, ok := ci.(ssa.CallInstruction); ok && staticCallee(cc.Common()) == host && caller != host {
+									if _, isDefer := ci.(*ssa.Defer); isDefer {
+										continue
+									}
+									if r := walkAfter(ci, caller, depth+1); r != "" {
+										return r
+									}
+								}
+							}
+						}
+					}
+					return ""
+				}
+				if r := walkAfter(ins, fn, 0); r != "" {
+					bad = append(bad, r)
 				}
 			}
 		}
